@@ -9,14 +9,26 @@ filter, dict overwrite included); it is tied to the implementation by the corres
 `harness/lattices/xcubecode.py`.  Property theorems only; the lemmas are in
 `Proofs/LatXCubeCode*.lean`.
 
-Not proved here: the rank clause (`rank H = n - k`) for all sizes.  It is covered per instance by
-the kernel-checked tables of `Properties/C01.lean`.
+Rank clause, for all sizes (`4·Lx·Ly·Lz` generators with `Lx·Ly·Lz + 2(Lx+Ly+Lz) − 3` relations):
+the cubes with at most one coordinate equal to 1, the axis-1 vertex operators with `x ≥ 2` or
+`z ≥ 2` and the axis-0 vertex operators with `y ≥ 2`, or `x ≥ 2` and `z ≥ 2`, are independent
+(`generators_independent`, via a triangular family of single-qubit probes,
+`Proofs/LatXCubeCodeRank1..3.lean`) and there are exactly `n − k = 3·Lx·Ly·Lz − 2(Lx+Ly+Lz) + 3` of
+them (`generators_count`).  `valid_code` puts everything together through the generic bridges
+`Proofs/OpComm.lean` (`symp (to_bsf a) (to_bsf b) = opAntiCount a b mod 2` ⇒ `CommPairL` of the
+assembled rows) and `Proofs/Lat2DRankBridge.lean` / `Proofs/Lat2DRankSubset.lean` (operator-level
+independent family of `n − k` distinct generators ⇒ `HasRank (2n) rowsH (n − k)`): the matrices
+that `stabilizer_matrix`, `logicals_x`, `logicals_z` of the generic code model (`Model/Code.lean`,
+C02) assemble from this lattice model form a valid `[[n, k]]` stabilizer code (`ValidCodeL`: all
+four clauses of C01, rank included) for EVERY size of the family.
 -/
 import PanqecVerif.Proofs.LatXCubeCode9
+import PanqecVerif.Proofs.LatXCubeCodeRank3
+import PanqecVerif.Proofs.Lat2DRankSubset
 
 namespace Panqec.C01XCubeCode
 
-open Panqec Panqec.XCubeCode
+open Panqec Panqec.XCubeCode Panqec.Lat2D
 
 /-- Coordinates are distinct, qubit and stabilizer coordinates are disjoint, every stabilizer and
     logical operator is a dict (distinct keys) supported on qubits with letters X/Y/Z, and no
@@ -40,6 +52,40 @@ theorem n_formula (Lx Ly Lz : Nat) : (lattice Lx Ly Lz).toCodeData.n = 3 * (Lx *
 theorem k_value (Lx Ly Lz : Nat) (hx : 1 ≤ Lx) (hy : 1 ≤ Ly) (hz : 1 ≤ Lz) :
     (lattice Lx Ly Lz).toCodeData.k = 2 * (Lx + Ly + Lz) - 3 :=
   length_logX Lx Ly Lz hx hy hz
+
+/-- rank clause, operator level: the selected generators (cubes with at most one coordinate equal
+    to 1; axis-1 vertex operators with `x ≥ 2` or `z ≥ 2`; axis-0 vertex operators with `y ≥ 2`, or
+    `x ≥ 2` and `z ≥ 2`) are independent — every non-empty duplicate-free sub-family `T` has a
+    Pauli operator `d` on the qubits anticommuting with an odd number of members of `T` (so no
+    non-trivial product of them is trivial) — every `Lx, Ly, Lz ≥ 2` -/
+theorem generators_independent (Lx Ly Lz : Nat) (hx : 2 ≤ Lx) (hy : 2 ≤ Ly) (hz : 2 ≤ Lz) :
+    IndepGenerators (lattice Lx Ly Lz) (selStabs Lx Ly Lz) :=
+  indep_sel Lx Ly Lz hx hy hz
+
+/-- the independent family consists of `n − k` distinct stabilizer locations -/
+theorem generators_count (Lx Ly Lz : Nat) (hx : 1 ≤ Lx) (hy : 1 ≤ Ly) (hz : 1 ≤ Lz) :
+    (selStabs Lx Ly Lz).Nodup ∧ (∀ s ∈ selStabs Lx Ly Lz, s ∈ (lattice Lx Ly Lz).stabs) ∧
+    (selStabs Lx Ly Lz).length + (lattice Lx Ly Lz).toCodeData.k =
+      (lattice Lx Ly Lz).toCodeData.n :=
+  ⟨nodup_selStabs Lx Ly Lz, fun _ hs => selStabs_sub hx hy hz hs, selStabs_count Lx Ly Lz hx hy hz⟩
+
+/-- THE C01 STATEMENT FOR ALL SIZES (`Lx, Ly, Lz ≥ 2`): `stabilizer_matrix`, `logicals_x`,
+    `logicals_z` of the generic code model, applied to this lattice model, return (no `KeyError`)
+    matrices that form a valid `[[3·Lx·Ly·Lz, 2(Lx+Ly+Lz) − 3]]` stabilizer code: generators
+    pairwise commute, logicals commute with the generators, `ω(X_i, Z_j) = δ_ij`,
+    `ω(X_i, X_j) = ω(Z_i, Z_j) = 0`, and the generators have GF(2) rank `n − k` -/
+theorem valid_code (Lx Ly Lz : Nat) (hx : 2 ≤ Lx) (hy : 2 ≤ Ly) (hz : 2 ≤ Lz) :
+    stabilizerMatrix (lattice Lx Ly Lz).toCodeData = some (lattice Lx Ly Lz).rowsH ∧
+    logicalsX (lattice Lx Ly Lz).toCodeData = some (lattice Lx Ly Lz).rowsX ∧
+    logicalsZ (lattice Lx Ly Lz).toCodeData = some (lattice Lx Ly Lz).rowsZ ∧
+    ValidCodeL (3 * (Lx * Ly * Lz)) (2 * (Lx + Ly + Lz) - 3)
+      (lattice Lx Ly Lz).rowsH (lattice Lx Ly Lz).rowsX (lattice Lx Ly Lz).rowsZ := by
+  obtain ⟨hnd, hsub, hcount⟩ := generators_count Lx Ly Lz (by omega) (by omega) (by omega)
+  have h := validCode_of_lattice_subset (lattice Lx Ly Lz) (wf Lx Ly Lz hx hy hz)
+    (commPair Lx Ly Lz hx hy hz) (selStabs Lx Ly Lz) hnd hsub
+    (generators_independent Lx Ly Lz hx hy hz) hcount
+  rw [n_formula, k_value Lx Ly Lz (by omega) (by omega) (by omega)] at h
+  exact h
 
 /-- `qubit_axis` of a qubit is the direction of its edge (the odd coordinate) -/
 theorem qubit_axis_rule (Lx Ly Lz : Nat) (x y z : Int) (h : [x, y, z] ∈ (lattice Lx Ly Lz).qubits) :
@@ -81,6 +127,14 @@ example : getStab 2 2 2 [0, 0, 0, 0] =
     [([0, 1, 0], Pauli.X), ([0, 3, 0], Pauli.X), ([0, 0, 1], Pauli.X), ([0, 0, 3], Pauli.X)] := by decide
 example : (getStab 2 3 2 [3, 5, 1]).length = 12 := by decide
 example : (lattice 2 3 4).CommPair := commPair 2 3 4 (by decide) (by decide) (by decide)
+example : IndepGenerators (lattice 2 2 3) (selStabs 2 2 3) :=
+  generators_independent 2 2 3 (by decide) (by decide) (by decide)
+example : (selStabs 2 2 3).length = 25 := by decide
+example : ValidCodeL 36 11 (lattice 2 2 3).rowsH (lattice 2 2 3).rowsX (lattice 2 2 3).rowsZ :=
+  (valid_code 2 2 3 (by decide) (by decide) (by decide)).2.2.2
+/-- 48 generators, rank 25 -/
+example : (lattice 2 2 3).stabs.length = 48 ∧ HasRank (2 * 36) (lattice 2 2 3).rowsH 25 :=
+  ⟨by decide, (valid_code 2 2 3 (by decide) (by decide) (by decide)).2.2.2.rank⟩
 example : getDeformation "XZZX" "y" [0, 1, 0] = some PauliMap.swapXZ := by decide
 example : getDeformation "XZZX" "y" [1, 0, 0] = some PauliMap.id := by decide
 example : getDeformation "XZZX" "w" [1, 0, 0] = none := by decide
